@@ -755,3 +755,63 @@ def r_probe(ctx, funcs, rule: str = 'R-PROBE') -> int:
                         n += 1
                         ctx.check(arg == f'{h.name}.name', rule, fn, f'the probe swallows the error when the missing module is a prefix of the probed name (`{core.src(c)}`)', c)
     return n
+
+
+OPERAND_OK = {
+    'forml.io.dsl._struct.series:Ordering.Direction.__call__': 'the receiver is the *direction*, the second field of Ordering(feature, direction)',
+}
+
+
+def r_operand(ctx, funcs, rule: str = 'R-OPERAND') -> int:
+    """DSL node construction keeps the operand order of the API: a method ``m(self, other, ...)`` that builds a node from both
+    operands passes the receiver first (``a.difference(b)`` is Set(a, b), ``a - b`` is Subtraction(a, b)); the reflected
+    operators ``__rX__`` pass the other operand first (``1 - a`` is Subtraction(1, a)).  Returns the number of sites."""
+    import re
+
+    n = 0
+    for fn in funcs:
+        ps = fn.param_names
+        if len(ps) < 2 or ps[0] != 'self':
+            continue
+        o = ps[1]
+        reflected = bool(re.match(r'__r[a-z]+__$', fn.name)) and fn.name not in ('__repr__', '__reduce__', '__rshift__', '__reversed__', '__round__')
+        for c in core.calls_in(fn.node, deep=False):
+            a = [core.src(x) for x in c.args]
+            if 'self' in a and o in a:
+                n += 1
+                if fn.ref in OPERAND_OK:
+                    ctx.ok(rule, fn, f'`{core.src(c)[:60]}`: {OPERAND_OK[fn.ref]}', c)
+                    continue
+                self_first = a.index('self') < a.index(o)
+                ctx.check(self_first != reflected, rule, fn, f'`{core.src(c)[:70]}` passes the {"other operand first (reflected operator)" if reflected else "receiver first"}', c)
+    return n
+
+
+def r_fieldpos(ctx, classes, rule: str = 'R-FIELDPOS') -> int:
+    """Tuple-backed DSL nodes: the value stored at position i is the constructor parameter named like the field that reads
+    position i (``left = property(itemgetter(0))`` <-> first element derives from ``left``).  A position fed from *another*
+    field-named parameter crosses two same-typed members (left/right, prefilter/postfilter).  Returns #positions checked."""
+    n = 0
+    for ci in classes:
+        fields = {}
+        for name, val in ci.assigns.items():
+            if isinstance(val, ast.Call) and core.call_name(val) == 'property' and val.args and isinstance(val.args[0], ast.Call) and (core.call_name(val.args[0]) or '').endswith('itemgetter') and val.args[0].args and isinstance(val.args[0].args[0], ast.Constant):
+                fields[val.args[0].args[0].value] = name
+        new = ci.methods.get('__new__')
+        if not fields or new is None:
+            continue
+        params = {a.arg for a in new.args.args[1:] + new.args.kwonlyargs}
+        named = params & set(fields.values())
+        sup = [c for c in core.calls_in(new) if isinstance(c.func, ast.Attribute) and c.func.attr == '__new__' and isinstance(c.func.value, ast.Call) and core.call_name(c.func.value) == 'super']
+        for c in sup:
+            if any(isinstance(a, ast.Starred) for a in c.args):
+                continue
+            for i, a in enumerate(c.args[1:]):
+                f = fields.get(i)
+                if f is None or f not in params:
+                    continue
+                n += 1
+                names = {x.id for x in ast.walk(a) if isinstance(x, ast.Name)}
+                crossed = sorted((names & named) - {f})
+                ctx.check(f in names and not (crossed and f not in names), rule, ci.ref, f'{ci.qual}: position {i} (field `{f}`) stores `{core.src(a)[:50]}`' + (f' - derived from `{crossed}` instead' if f not in names else ''), a, key=f'{ci.qual}:{i}:{f}')
+    return n
